@@ -267,8 +267,25 @@ func (cln *Client) Ping(onComplete OnCompleteFunc) error {
 // terminates after the sending of the DISCONNECT message.
 func (cln *Client) Disconnect() {
 	msg := message.NewDisconnectMessage()
-	writeMessage(cln.svc.conn, msg)
+
+	// DISCONNECT takes the same way as every other packet of a running connection:
+	// through the outgoing buffer, written by the sender goroutine. Written straight
+	// to the connection it could land between two blocks of a packet the sender is
+	// still writing.
+	if _, err := cln.svc.writeMessage(msg); err == nil {
+		cln.svc.waitSent(time.Second * time.Duration(cln.svc.connectTimeout))
+	}
+
 	cln.svc.stop()
+}
+
+// waitSent returns when the sender goroutine has written everything in the outgoing
+// buffer to the connection, when the buffer has been closed, or after d.
+func (svc *service) waitSent(d time.Duration) {
+	deadline := time.Now().Add(d)
+	for svc.out.Len() > 0 && !svc.out.isDone() && time.Now().Before(deadline) {
+		time.Sleep(time.Millisecond)
+	}
 }
 
 func (cln *Client) getSession(svc *service, req *message.ConnectMessage, _ *message.ConnackMessage) error {
